@@ -261,7 +261,7 @@ def run(ctx):
     def idx_of(e):
         e = strip(hir.through_lets(e, lets_pw))
         if e["k"] == "MethodCall" and e["method"] == "is_whitespace":
-            r = strip(e["recv"])
+            r = strip(hir.through_lets(e["recv"], lets_pw))
             if r["k"] == "Index":
                 return r["idx"]
         return None
